@@ -20,8 +20,7 @@ theorem act_lock {c : Cfg} {s s' : Sh} {pc pc' : Pc} {sp : List Pc} (q : Key)
   cases q <;> cases pc <;> (repeat (cases ‹Key›)) <;> (repeat (cases ‹Bool›)) <;> act_cases h
   all_goals (first
     | (simp_all [Pc.holdsL, holdsL, Pc.wf, KV.get, KV.set]; done)
-    | (simp_all [Pc.holdsL, holdsL, Pc.wf, KV.get, KV.set] <;> omega)
-    | (trace_state; sorry))
+    | (simp_all [Pc.holdsL, holdsL, Pc.wf, KV.get, KV.set] <;> omega))
 
 structure LockInv (s : Sys) : Prop where
   held : ∀ q, tot (holdsL q) s.thr = b2n (s.sh.lock.get q)
